@@ -3,7 +3,9 @@
    FULL STATEMENT (not proved): forall c, kf15 c = 0 -> spec_ok15 c (model_obs15 c) = true,
    i.e. in the model every rewriting of a query (pattern order, operand order,
    renaming) has the same multiset of solutions outside the regions of the C04
-   findings.  Proved: the invariance under permutation of triple patterns (for
+   findings.  Proved on the region [tied15] (C15_main_partial: rewritings by BGP
+   permutation, UNION swap, join swap at any depth, base and variant inside the
+   proved C04 fragment, data without boolean literals).  Also proved: the invariance under permutation of triple patterns (for
    the specification and for rdflib's evaluator under every context, covering the
    static reorderTriples and the run-time sort), commutativity of UNION, and the
    trivial half (one algebra evaluated repeatedly gives one answer - a pure model
@@ -39,10 +41,10 @@ Theorem C15_union_comm_model : forall ds g c p1 p2,
 Proof. exact td_union_comm. Qed.
 Print Assumptions C15_union_comm_model.
 
-Theorem C15_join_comm : forall ds g l l' a b, shape a = true -> shape b = true ->
+Theorem C15_join_comm_partial : forall ds g l l' a b, shape a = true -> shape b = true ->
   Permutation (eval_bu ds g (Join l a b)) (eval_bu ds g (Join l' b a)).
 Proof. exact bu_join_comm. Qed.
-Print Assumptions C15_join_comm.
+Print Assumptions C15_join_comm_partial.
 
 Theorem C15_join_comm_model_partial : forall ds, graphs_nodup ds -> ds_nb ds -> forall pushed l l' a b g c,
   frag (map fst (ds_named ds)) pushed (Join l a b) = true ->
@@ -54,10 +56,10 @@ Print Assumptions C15_join_comm_model_partial.
 
 (* associativity of Join: list for list in the specification, up to permutation in
    the top-down model wherever both bracketings lie in the proved fragment *)
-Theorem C15_join_assoc : forall ds g l1 l2 l3 l4 a b d, shape a = true -> shape b = true -> shape d = true ->
+Theorem C15_join_assoc_partial : forall ds g l1 l2 l3 l4 a b d, shape a = true -> shape b = true -> shape d = true ->
   eval_bu ds g (Join l1 (Join l2 a b) d) = eval_bu ds g (Join l3 a (Join l4 b d)).
 Proof. exact bu_join_assoc. Qed.
-Print Assumptions C15_join_assoc.
+Print Assumptions C15_join_assoc_partial.
 
 Theorem C15_join_assoc_model_partial : forall ds, graphs_nodup ds -> ds_nb ds ->
   forall pushed l1 l2 l3 l4 a b d g c,
@@ -70,7 +72,7 @@ Print Assumptions C15_join_assoc_model_partial.
 
 (* FILTER placement within a group: a filter over variables the left operand
    certainly binds may be applied to that operand or to the whole join *)
-Theorem C15_filter_placement : forall ds, graphs_nodup ds -> ds_nb ds ->
+Theorem C15_filter_placement_partial : forall ds, graphs_nodup ds -> ds_nb ds ->
   forall g n1 fv1 n2 fv2 l l' e a b,
   shape a = true -> shape b = true -> gok g ->
   efrag (map fst (ds_named ds)) (maybe a ++ maybe b) e = true ->
@@ -78,7 +80,7 @@ Theorem C15_filter_placement : forall ds, graphs_nodup ds -> ds_nb ds ->
   subsetv (evars e) (cert a) = true ->
   eval_bu ds g (Filter n1 fv1 e (Join l a b)) = eval_bu ds g (Join l' (Filter n2 fv2 e a) b).
 Proof. exact bu_filter_join. Qed.
-Print Assumptions C15_filter_placement.
+Print Assumptions C15_filter_placement_partial.
 
 Theorem C15_filter_placement_model_partial : forall ds, graphs_nodup ds -> ds_nb ds ->
   forall pushed g c n1 fv1 n2 fv2 l l' e a b,
@@ -104,28 +106,63 @@ Theorem C15_prebinding_values_partial : forall ds, graphs_nodup ds -> ds_nb ds -
 Proof. exact td_prebound_values. Qed.
 Print Assumptions C15_prebinding_values_partial.
 
+(* reading of the checker: group by group, the observation holds as many answers
+   as the case demands - 1 + |g_vars| + g_same, or 2 for the initBindings groups -
+   and all answers present in a group equal its first *)
 Theorem C15_spec_reading : forall c o,
-  spec_ok15 c o = true <-> (length o = length c /\ forall l, In l o -> group_ok l = true).
+  spec_ok15 c o = true <->
+  Forall2 (fun g l => N.of_nat (length l) = group_size g /\ group_ok l = true) c o.
 Proof. exact spec_ok15_iff. Qed.
 Print Assumptions C15_spec_reading.
 
 Theorem C15_group_reading : forall l,
-  group_ok l = true <-> (forall x r, l = x :: r -> forall y, In y r -> obs_eqb x y = true).
+  group_ok l = true <-> (forall x r, present l = x :: r -> forall y, In y r -> obs_eqb x y = true).
 Proof. exact group_ok_iff. Qed.
 Print Assumptions C15_group_reading.
 
-Theorem C15_main_partial : forall c, no_own_algebra c = true -> spec_ok15 c (model_obs15 c) = true.
-Proof. exact model_same_algebra. Qed.
+(* the rewritings of the variants suite, as a relation on algebra trees: triple
+   patterns of any BGP permuted, operands of any UNION swapped, operands of a
+   join swapped (VALUES rows canonical), annotations free; they leave the
+   multiset of solutions of the SPECIFICATION unchanged.  No hypothesis on the data. *)
+Theorem C15_rewriting_spec : forall p p', aeqb p p' = true ->
+  forall ds g, Permutation (eval_bu ds g p) (eval_bu ds g p').
+Proof. exact aeqb_sound. Qed.
+Print Assumptions C15_rewriting_spec.
+
+(* THE TIE, on its region [tied15]: every variant with an algebra of its own
+   keeps names, data and form, is a rewriting [aeqb] of the base, and base and
+   variant lie in the proved C04 fragment over well-formed data without boolean
+   literals (case_wf; the complement of the data half of F-C04-9's region).  Then
+   the checker accepts the model's observation.  _partial: [tied15] is smaller
+   than [kf15 c = 0] - renamed variants, variants outside [frag], initBindings
+   groups (one modelled observation) are not in it. *)
+Theorem C15_main_partial : forall c, tied15 c = true -> spec_ok15 c (model_obs15 c) = true.
+Proof. exact variants_tie. Qed.
 Print Assumptions C15_main_partial.
+
+(* groups that observe one algebra repeatedly are in the region *)
+Theorem C15_same_algebra_glue : forall c, no_own_algebra c = true -> tied15 c = true.
+Proof. exact no_own_tied. Qed.
+Print Assumptions C15_same_algebra_glue.
+
+(* F-C15-1, closed witness: the algebra answers both spellings with the same two
+   rows; the model (= rdflib) answers the first with one row; the trigger fires *)
+Theorem C15_refuted :
+  spec_ok15 w15 (model_obs15 w15) = false /\ kf15 w15 = 1%N
+  /\ msol_eqb (spec_rows w15_base) (spec_rows w15_var) = true
+  /\ length (spec_rows w15_base) = 2%nat
+  /\ model_obs w15_base = RSel [[(1, 1); (2, 2); (3, 2); (4, 11)]]%N.
+Proof. exact w15_refuted. Qed.
+Print Assumptions C15_refuted.
 
 (* the prepared Query object as a state machine (Sparql/Prepared.v): whatever
    the sequence of evaluations, the state stays the tree prepareQuery built and
    every answer is the answer of a fresh evaluation of that tree *)
-Theorem C15_prepared_pure : forall f s steps,
+Theorem C15_prepared_pure_glue : forall f s steps,
   map snd (prep_run f s steps) = repeat s (length steps)
   /\ map fst (prep_run f s steps) = map (fun ds => answer f (eval_td ds (ds_default ds) [] s)) steps.
 Proof. exact prep_run_pure. Qed.
-Print Assumptions C15_prepared_pure.
+Print Assumptions C15_prepared_pure_glue.
 
 (* reading of the checker of the prepared_state suite: every snapshot of the
    real object's tree IS the tree right after prepareQuery (structural equality
@@ -135,9 +172,9 @@ Theorem C15_prepared_spec_reading : forall c o,
 Proof. exact spec_ok_prep_iff. Qed.
 Print Assumptions C15_prepared_spec_reading.
 
-Theorem C15_prepared_spec_model : forall c, spec_ok_prep c (model_obs_prep c) = true.
+Theorem C15_prepared_spec_model_glue : forall c, spec_ok_prep c (model_obs_prep c) = true.
 Proof. exact spec_ok_prep_model. Qed.
-Print Assumptions C15_prepared_spec_model.
+Print Assumptions C15_prepared_spec_model_glue.
 
 Example C15_nonvacuous :
   exists ts ts', ts <> ts' /\ Permutation ts ts'
